@@ -39,7 +39,7 @@
 ; store key of a proof record: prover/owner/hex(merkle)/start/ (types.ProofKey); injective on separator-free provers and owners
 (declare-fun proof_key (Str Str Str Int) Str)
 ; first '/'-separated component of a proof key is the prover (provers are bech32 addresses, hence separator-free;
-; concrete-mode lemma: x/storage/types.proof_key_components)
+; proved against SMT strings for separator-free provers and owners: lemma x/storage/types.proof_key_components)
 (assert (forall ((p Str) (m Str) (o Str) (s Int)) (! (= (split_at (proof_key p m o s) {str "/"} 0) p) :pattern ((proof_key p m o s)))))
 (assert (forall ((p Str) (m Str) (o Str) (s Int) (p2 Str) (m2 Str) (o2 Str) (s2 Int)) (! (=> (= (proof_key p m o s) (proof_key p2 m2 o2 s2)) (and (= p p2) (= m m2) (= o o2) (= s s2))) :pattern ((proof_key p m o s) (proof_key p2 m2 o2 s2)))))
 ; C17: every listed key of a stored or in-memory file has a proof record that refers back to the file and carries
